@@ -1,8 +1,10 @@
 package main
 
 import (
+	"net/http"
 	"path/filepath"
 	"strings"
+	"time"
 )
 
 func filepathGlob(p string) ([]string, error) { return filepath.Glob(p) }
@@ -16,4 +18,25 @@ func countRaces(s string) int {
 		}
 	}
 	return n
+}
+
+func httpNewRequest(method, url, bearer string) (*http.Request, error) {
+	req, err := http.NewRequest(method, url, nil)
+	if err == nil && bearer != "" {
+		req.Header.Set("Authorization", "Bearer "+bearer)
+	}
+	return req, err
+}
+
+func httpStatus(req *http.Request) int {
+	if req == nil {
+		return 0
+	}
+	c := &http.Client{Timeout: 5 * time.Second}
+	resp, err := c.Do(req)
+	if err != nil {
+		return 0
+	}
+	resp.Body.Close()
+	return resp.StatusCode
 }
